@@ -65,6 +65,7 @@ type gfield struct {
 	t    *gty
 	tag  string
 	anon bool   // embedded field: (emb Name T [xTAG])
+	ext  bool   // op @objtg: the puppet tag is handed to the reflector beside the type (px.NewTaggedType), the Go field carries none
 	dflt string // generator only: the go-value term of the default declared in the tag ("" = none)
 }
 
@@ -198,7 +199,7 @@ func (t *gty) rtype() reflect.Type {
 	fs := make([]reflect.StructField, len(t.fields))
 	for i, f := range t.fields {
 		fs[i] = reflect.StructField{Name: f.name, Type: f.t.rtype(), Anonymous: f.anon}
-		if f.tag != "" {
+		if f.tag != "" && !f.ext {
 			fs[i].Tag = reflect.StructTag(f.tag)
 		}
 	}
@@ -717,7 +718,24 @@ func exec(c px.Context, op string, args []sx.Sexp) (r core.Result) {
 			}
 			r = refl(fc, t, args[1], false)
 		case "obj":
-			r = obj(fc, tyOf(args[0]), args[1])
+			r = obj(fc, tyOf(args[0]), args[1], false)
+		case "objnorm":
+			// a tag string outside the conventional `key:"value" key:"value"` form: whatever reflect.StructTag finds under the key
+			// puppet (and nothing else) is what the derived type is made from
+			r = obj(fc, tyOf(args[0]), args[1], false)
+			var r0 core.Result
+			px.DoWithContext(c.Fork(), func(fc0 px.Context) { r0 = obj(fc0, normalTags(tyOf(args[0])), args[1], false) })
+			if r.Out != r0.Out && (r.Pred == "ok" || r.Pred == "n/a") {
+				r.Pred = oneLine("FAIL tag-convention-differs the tag strings as written give " + r.Out + ", the puppet tags reflect.StructTag finds in them " + r0.Out)
+			}
+		case "objtg":
+			r = obj(fc, tyOf(args[0]), args[1], true)
+			// … and everything observed (init hash, construction forms, what comes back) is what the tags on the Go fields give
+			var r0 core.Result
+			px.DoWithContext(c.Fork(), func(fc0 px.Context) { r0 = obj(fc0, tyOf(args[0]), args[1], false) })
+			if r.Out != r0.Out && (r.Pred == "ok" || r.Pred == "n/a") {
+				r.Pred = oneLine("FAIL external-tags-differ tags handed over with px.NewTaggedType give " + r.Out + ", the same tags on the fields " + r0.Out)
+			}
 		case "objreg":
 			r = objreg(fc, tyOf(args[0]), args[1], false)
 		case "objregp":
@@ -746,7 +764,12 @@ func registerStructs(c px.Context, t *gty, seen map[reflect.Type]px.ObjectType) 
 			if len(t.fields) > 0 && t.fields[0].anon && t.fields[0].t.kind == "struct" {
 				parent = seen[t.fields[0].t.rtype()]
 			}
-			ot := c.Reflector().TypeFromReflect("T::S"+strconv.Itoa(len(seen)+1), parent, rt)
+			var ot px.ObjectType
+			if tm := externalTags(t); tm != nil {
+				ot = c.Reflector().TypeFromTagged("T::S"+strconv.Itoa(len(seen)+1), parent, px.NewTaggedType(rt, tm), nil)
+			} else {
+				ot = c.Reflector().TypeFromReflect("T::S"+strconv.Itoa(len(seen)+1), parent, rt)
+			}
 			px.AddTypes(c, ot)
 			seen[rt] = ot
 		}
@@ -1273,9 +1296,12 @@ func instCause(t *gty, v reflect.Value, viaWrap bool, underPtr bool) string {
 
 // ---- @obj: structs through a derived object type (implementation only) ------------------------------------------------
 
-func obj(c px.Context, t *gty, ve sx.Sexp) core.Result {
+func obj(c px.Context, t *gty, ve sx.Sexp, tagged bool) core.Result {
 	if t.kind != "struct" {
 		return core.Result{Out: "bad-op", Pred: "FAIL harness-bad-op obj needs a struct type"}
+	}
+	if tagged {
+		t = withExternalTags(t)
 	}
 	gv := build(t, ve)
 	rt := t.rtype()
@@ -2446,6 +2472,7 @@ func randStruct(r *rand.Rand, depth int, prefix string) *gty {
 func gen(g *core.G) {
 	genEmbed(g)
 	genWk(g)
+	genOddTags(g)
 	nraw := 0
 	emit := func(t *gty, v string) {
 		if t.has("struct") {
@@ -2472,6 +2499,10 @@ func gen(g *core.G) {
 				}
 				if len(t.fields) > 0 {
 					g.Emit(pre + "obj " + t.sexp().String() + " " + v)
+					if externalTags(withExternalTags(t)) != nil {
+						// the same struct with its puppet tags handed over beside the type (px.NewTaggedType)
+						g.Emit("@objtg " + t.sexp().String() + " " + v)
+					}
 				} else {
 					g.Emit("@obj " + t.sexp().String() + " " + v)
 				}
